@@ -2,6 +2,7 @@ import Operon.Model.Proto
 import Operon.Model.Cascade
 import Operon.Model.CascadeObs
 import Operon.Model.CascadeTr
+import Operon.Model.CascadePar
 /-! Line-protocol driver for the cascade model (C19). -/
 open Operon Operon.Proto Operon.Cascade
 
@@ -117,6 +118,20 @@ def step (st : DSt) (toks : List String) : DSt × String :=
     let oks := (if outer.1.success then 1 else 0) + (if innerR.1.success then nestedN else 0)
     ({ st with runs := st.runs + 1 + nestedN, okRuns := st.okRuns + oks, badRuns := st.badRuns + (1 + nestedN - oks) },
      String.intercalate " | " (render outer :: List.replicate nestedN (render innerR)))
+  | ["prun", x] =>
+    -- run_parallel: order-insensitive rendering (the code collects results in completion order of its worker threads)
+    match runParallel st.stages (natD x) with
+    | none => ({ st with runs := st.runs + 1 }, "raise:ValueError")       -- an empty cascade cannot be forked; the run was counted
+    | some r =>
+      let sortS (l : List String) : List String := (l.toArray.qsort (· < ·)).toList
+      let outs := match r.outputs with
+        | none => "none"
+        | some l => showList (sortS (l.map toString))
+      let line := joinSp ["P", showBool r.success, outs, toString r.completed, toString r.total, "1",
+        showList (sortS (r.results.map fun q => s!"{st.names.getD q.idx "?"}:{showStatus q.status}:{showRat q.factor}")),
+        showList (sortS (r.log.map showEv))]
+      ({ st with runs := st.runs + 1, okRuns := st.okRuns + (if r.success then 1 else 0),
+                 badRuns := st.badRuns + (if r.success then 0 else 1) }, line)
   | ["stats"] => (st, s!"{st.stages.length} {st.runs} {st.okRuns} {st.badRuns}")
   | _ => (st, "bad-op")
 
